@@ -3,7 +3,7 @@
    theorem is therefore proved relative to the solutions that keep every such instructor teaching (Solution.s_keep), which is
    the full statement for instances outside TC (C02_noTC); C02_refuted exhibits the defect on the faithful model. *)
 From Coq Require Import List ZArith Lia Bool Arith.
-Require Import HP1 Cao1 Cao3 Cao5 Score1 Cov1 Rooms Spec SpecProofs Valid Node NodeThms NodeWf Solve C02Engine.
+Require Import HP1 Cao1 Cao3 Cao5 Score1 Cov1 Rooms Spec SpecProofs Valid Node NodeThms NodeWf Solve C02Engine C02Full.
 Require EngP2.
 Import ListNotations.
 Open Scope nat_scope.
@@ -12,30 +12,26 @@ Definition final (st : EngP2.state node assignment) : Prop := forall i t, EngP2.
 
 (* For every valid instance without room list, every worker count k >= 1 and every interleaving: a final state of the search holds a
    best solution whose score is at least the score of EVERY hard-feasible assignment (with any set K of non-fixed courses not taking
-   place) in which the participants with choices who instruct a course are assigned to it.  Hypotheses besides validity: no node run
-   ends in a panic site or in the matching routine's range-checked Overflow outcome (sites 1-5: C10; Overflow: C07's i32 bound). *)
+   place) in which the participants with choices who instruct a course are assigned to it.  The only hypothesis besides validity: the
+   matching routine never reports its range-checked i32 Overflow outcome (C07; excluded by the classical potential bound, not
+   formalised).  That no node run ends in a panic site is proved (C10: NoPanic, WfPres). *)
 Theorem C02_partial : forall courses parts esize shrinkf smin smax k st,
   Valid courses parts ->
-  (forall nd, match run_full courses parts esize shrinkf None nd with Val _ => True | _ => False end) ->
+  (forall nd, run_full courses parts esize shrinkf None nd <> HOverflow) ->
   (forall a, (score_of courses parts a <= smax)%Z) ->
   SReach courses parts esize shrinkf None smin smax k st -> 0 < k -> final st ->
   forall K a, Solution courses parts K a -> (forall c, c < nc courses -> K c = true -> c_fixed (crs courses c) = false) ->
   EngP2.best node assignment st <> None /\ (score_of courses parts a <= EngP2.bscore node assignment st)%Z.
 Proof.
-  intros courses parts esize shrinkf smin smax k st V Hnp Hr R Hk Hfin K a Hs Hfix.
-  pose (t := {| t_a := a; t_K := K; t_sol := Hs; t_fix := Hfix |}).
-  refine (C02_partial_noroom courses parts (pick_wrong courses parts) (v_instr_rng _ _ V) (valid_one _ _ V) (valid_pairs _ _ V)
-            (v_minmax _ _ V) (maxpen parts) (valid_pen _ _ V) _ _ smin smax (fun t0 => Hr _) k st R Hk Hfin t).
-  - split; [|apply (v_pen _ _ V)]. unfold maxpen. apply Valid.fold_max_ge. right. lia.
-  - intros nd. specialize (Hnp nd). unfold C02Engine.f. change (Cao5.run courses parts no_rooms (C02Engine.the_pick courses parts (pick_wrong courses parts)) nd)
-      with (run_full courses parts esize shrinkf None nd). destruct (run_full courses parts esize shrinkf None nd) as [[| |]| |]; try contradiction; discriminate.
+  intros courses parts esize shrinkf smin smax k st V Hov Hr R Hk Hfin K a Hs Hfix.
+  apply (c02_partial_full courses parts V Hov smin smax k st Hr R Hk Hfin K a Hs Hfix).
 Qed.
 
 (* outside the class TC (no participant with choices instructs a course) this is the full statement: the reported score is the
    maximum over ALL hard-feasible assignments, and 'no solution' is reported only if none exists *)
 Theorem C02_noTC : forall courses parts esize shrinkf smin smax k st,
   Valid courses parts -> in_tc courses parts = false ->
-  (forall nd, match run_full courses parts esize shrinkf None nd with Val _ => True | _ => False end) ->
+  (forall nd, run_full courses parts esize shrinkf None nd <> HOverflow) ->
   (forall a, (score_of courses parts a <= smax)%Z) ->
   SReach courses parts esize shrinkf None smin smax k st -> 0 < k -> final st ->
   forall K a, HardOK_K courses parts K a -> (forall c, K c = true -> c < nc courses /\ c_fixed (crs courses c) = false) ->
